@@ -113,7 +113,11 @@ partial def oracleRows (mag : Rat) (initAcb : Rat) (c3 : Bool) (complete : Bool)
     -- residue may remain in the total) (C04: total = sum of the affiliates' latest balances)
     let e4b : List (String × String) :=
       if (st'.implShares.all (fun p => p.1 == x.aff)) && x.post.all ≠ x.post.shares then
-        [("C04", s!"row {i}: only this affiliate has ever held shares, yet the all-affiliate balance {ratToString x.post.all} differs from its balance {ratToString x.post.shares}")]
+        let m := s!"row {i}: only this affiliate has ever held shares, yet the all-affiliate balance {ratToString x.post.all} differs from its balance {ratToString x.post.shares}"
+        -- when it is a split that separates the two, the split did more than rescale the holding (C15)
+        match t.act with
+        | .split _ _ _ => [("C04", m), ("C15", m ++ " (after a split)")]
+        | _ => [("C04", m)]
       else []
     let st' := { st' with gains := st'.gains + x.gain.getD 0,
                           overSeen := st'.overSeen || (match x.sfl with | some s => s.over | none => false) }
